@@ -341,18 +341,26 @@ c_add_history = REG.contract('bounded-history/addSizeClasses', [T + 'addSizeClas
                              configs=history_configs(2, 3), bounded='operation sequences of length <= 2 (quick) / <= 3 (thorough) from the real constructor; arguments symbolic')(with_history(c_add))
 
 
-@REG.contract('UpdatePBMEuler/recorded-history', [T + 'UpdatePBMEuler', T + 'record'])
+@REG.contract('UpdatePBMEuler/recorded-history', [T + 'UpdatePBMEuler', T + 'record'], configs=[dict(name='adaptive-binning', ad=True), dict(name='fixed-binning', ad=False)])
 def c_update_recorded(ctx, it, cfg):
     """with recording on, the row appended for a step holds the distribution as it is STORED for that step (classes below one particle already removed),
-    the current class boundaries and the time; earlier rows are untouched"""
+    the current class boundaries and the time; earlier rows are untouched.  Fixed binning: the grid is never re-meshed, so the class count may be below or above the
+    configured maximum; the recorded rows are as wide as the widest grid seen so far (at least the configured maximum, which enableRecording allocates)"""
     k = integer(ctx, 'records', lambda v: v >= 1)
     o, w, g = mk(ctx, it)
-    mb = o.fields['maxBins']
-    ctx.assume(o.bins <= mb)
+    if cfg['ad']:
+        mb = o.fields['maxBins']
+        ctx.assume(o.bins <= mb)
+    else:
+        mb = integer(ctx, 'recorded_width')
+        ctx.assume(mb >= o.fields['maxBins'])
     rt = array(ctx, 'rec_time', (k,))
     rb = array(ctx, 'rec_bins', (k, mb + 1))
     rp = array(ctx, 'rec_PSD', (k, mb))
-    o.fields.update(_record=True, _adaptiveBinSize=True, _recordedTime=rt, _recordedBins=rb, _recordedPSD=rp)
+    o.fields.update(_record=True, _adaptiveBinSize=cfg['ad'], _recordedTime=rt, _recordedBins=rb, _recordedPSD=rp)
+    mb0 = mb                           # width of the recorded rows before this step
+    if not cfg['ad']:
+        mb = vmax(mb, o.bins)          # width after this step
     f_t, f_b, f_p = rt.snap(), rb.snap(), rp.snap()
     newN = array(ctx, 'newN', (o.bins,), fact=lambda v, i: v >= 0)
     n0 = newN.snap()
@@ -366,4 +374,6 @@ def c_update_recorded(ctx, it, cfg):
     forall(ctx, 'unused-columns-are-zero', o.bins, mb, lambda i: eq(P2.get(k, i), 0))
     r, c = integer(ctx, 'r', lambda v: v >= 0), integer(ctx, 'c', lambda v: v >= 0)
     ctx.assume(r < k)
-    ctx.prove('earlier-rows-untouched', and_(eq(T2.get(r), f_t(r)), implies(c < mb, eq(P2.get(r, c), f_p(r, c))), implies(c <= mb, eq(B2.get(r, c), f_b(r, c)))), inst=[r, c])
+    ctx.prove('earlier-rows-untouched', and_(eq(T2.get(r), f_t(r)), implies(c < mb0, eq(P2.get(r, c), f_p(r, c))), implies(c <= mb0, eq(B2.get(r, c), f_b(r, c)))), inst=[r, c])
+    if not cfg['ad']:
+        ctx.prove('earlier-rows-widened-with-zeros', and_(implies(and_(c >= mb0, c < mb), eq(P2.get(r, c), 0)), implies(and_(c > mb0, c <= mb), eq(B2.get(r, c), 0))), inst=[r, c])
